@@ -141,6 +141,8 @@ type Run struct {
 	caseExprs []string // boolean Gallina expressions
 	caseDescs []string
 	perShard  int
+	advExprs  []string // advisory model cases (Advisory): evaluated like cases, a mismatch is a note in the evidence
+	advDescs  []string
 }
 
 func NewRun(pid, tier string, seed uint64, dir string) *Run {
@@ -231,12 +233,54 @@ func (r *Run) Case(desc, expr string) {
 	r.caseExprs = append(r.caseExprs, expr)
 }
 
+// Advisory adds a model case OUTSIDE what the property states (e.g. the decoded value of a hostile input,
+// where the property only demands an error or a value).  It is evaluated in the kernel like a Case; a
+// mismatch is reported as a note in the evidence ("the model no longer describes the code there"), never as
+// a violation, so that a change which keeps the property true keeps the check quiet.
+func (r *Run) Advisory(desc, expr string) {
+	r.advDescs = append(r.advDescs, desc)
+	r.advExprs = append(r.advExprs, expr)
+}
+
 func (r *Run) Finish() error {
 	type shard struct {
 		File  string   `json:"file"`
 		Descs []string `json:"descs"`
 	}
 	var shards []shard
+	var advShards []shard
+	for start, k := 0, 0; start < len(r.advExprs); k++ {
+		end, size := start, 0
+		for end < len(r.advExprs) && end-start < r.perShard && (end == start || size+len(r.advExprs[end]) <= 160<<10) {
+			size += len(r.advExprs[end])
+			end++
+		}
+		w := NewCoqWriter()
+		for _, m := range r.imports {
+			w.P("From V Require Import %s.", m)
+		}
+		w.P("Open Scope N_scope.")
+		for i := start; i < end; i++ {
+			w.P("Definition c%d : bool := Eval vm_compute in (%s).", i-start, r.advExprs[i])
+		}
+		w.P("Definition cases : list (N * bool) := [")
+		for i := start; i < end; i++ {
+			sep := ";"
+			if i == end-1 {
+				sep = ""
+			}
+			w.P(" (%d, c%d)%s", i-start, i-start, sep)
+		}
+		w.P("].")
+		w.P("Definition M := Eval vm_compute in mismatches cases.")
+		w.P("Print M.")
+		name := fmt.Sprintf("cases_adv_%d.v", k)
+		if err := os.WriteFile(filepath.Join(r.Dir, name), w.Bytes(), 0o644); err != nil {
+			return err
+		}
+		advShards = append(advShards, shard{name, r.advDescs[start:end]})
+		start = end
+	}
 	// a shard ends after perShard cases or ~maxBytes of term text, whichever comes first
 	const maxBytes = 160 << 10
 	for start, k := 0, 0; start < len(r.caseExprs); k++ {
@@ -289,6 +333,8 @@ func (r *Run) Finish() error {
 		"failure_counts":      r.failSeen,
 		"shards":              shards,
 		"n_cases":             len(r.caseExprs),
+		"advisory_shards":     advShards,
+		"n_advisory":          len(r.advExprs),
 		"notes":               r.Notes,
 	}
 	data, err := json.MarshalIndent(out, "", " ")
